@@ -218,4 +218,5 @@ let comp_authiso : Registry.comp = fun params ->
     w := AuthHeap.step slack raws true !w op;
     state ()
 
-let init () = register "auth" comp_auth; register "authiso" comp_authiso
+let init () = register "auth" comp_auth; register "authiso" comp_authiso;
+  register "authws" (fun _ -> fun _ -> "-")   (* monitor-only histories: nothing to compare *)
